@@ -128,6 +128,19 @@ func (e *pipeEng) genDecls(r *Rand, flavour string, allowMixed bool) string {
 		return strings.Join(ds, ",")
 	}
 
+	if allowMixed && r.Chance(1, 2) {
+		// two inputs of one (namespace,type) matching the same resource, one of them destroy-ready: the wake-up
+		// must not depend on which of them the adapter looks at last
+		t, id := Pick(r, pipeTypes), Pick(r, pipeIDs)
+		other := Pick(r, []string{"weak", "strong"})
+
+		if r.Chance(1, 2) {
+			return t + "/-/" + other + "," + t + "/" + id + "/dr"
+		}
+
+		return t + "/-/dr," + t + "/" + id + "/" + other
+	}
+
 	used := map[string]bool{}
 	groupKind := map[string]string{}
 	n := 1 + r.Intn(3)
@@ -181,7 +194,7 @@ func pipeDeclsMatch(decls, typ, id string) bool {
 	return false
 }
 
-const pipeHeader = "# engine=pipeline nsaware=1 initcap=100 maxcap=100 gap=5 cached=%s mixed=%v case=%v"
+const pipeHeader = "# engine=pipeline nsaware=1 initcap=100 maxcap=100 gap=5 cached=%s mixed=%v case=%v faillist=%s"
 
 // Corpus: the two parked-delivery scenarios in minimal form (always run first).
 //
@@ -192,7 +205,7 @@ const pipeHeader = "# engine=pipeline nsaware=1 initcap=100 maxcap=100 gap=5 cac
 func (*pipeEng) Corpus(bool) []Case {
 	return []Case{
 		{
-			Header: fmt.Sprintf(pipeHeader, "", false, "corpus-repeat"),
+			Header: fmt.Sprintf(pipeHeader, "", false, "corpus-repeat", ""),
 			Ops: []string{
 				"w t=1 typ=T1 id=a mut=setSpec:s1", "w t=2 typ=T2 id=a mut=setSpec:s1",
 				"reg t=3 p=1 fl=r in=T1/a/weak busy=0", "reg t=4 p=2 fl=r in=T2/a/weak busy=0",
@@ -203,7 +216,7 @@ func (*pipeEng) Corpus(bool) []Case {
 			},
 		},
 		{
-			Header: fmt.Sprintf(pipeHeader, "", false, "corpus-fan"),
+			Header: fmt.Sprintf(pipeHeader, "", false, "corpus-fan", ""),
 			Ops: []string{
 				"w t=1 typ=T1 id=a mut=setSpec:s1",
 				"reg t=2 p=1 fl=r in=T1/-/weak busy=0", "reg t=3 p=2 fl=r in=T1/-/strong busy=0", "reg t=4 p=3 fl=r in=T1/-/weak busy=0",
@@ -218,7 +231,7 @@ func (*pipeEng) Corpus(bool) []Case {
 			// a registration that is rejected after its first input was added to the dependency database (two
 			// inputs with equal keys), held at the watch set-up in between; a change of that first input's kind is
 			// in delivery meanwhile: the rejected controller must not be notified (it does not exist)
-			Header: fmt.Sprintf(pipeHeader, "", false, "corpus-rejected"),
+			Header: fmt.Sprintf(pipeHeader, "", false, "corpus-rejected", ""),
 			Ops: []string{
 				"w t=1 typ=T1 id=a mut=setSpec:s1",
 				"reg t=2 p=1 fl=r in=T1/-/weak busy=0",
@@ -247,7 +260,14 @@ func (e *pipeEng) Gen(r *Rand, thorough bool, idx int) Case {
 
 	fan := idx%8 == 3
 
-	c := Case{Header: fmt.Sprintf(pipeHeader, cached, mixed, idx)}
+	// one case in five: the first List of one type fails once the runtime runs (a transient state error): the queue
+	// runtime's start-up listing of existing primaries must be retried, a probe failing on it is restarted
+	faillist := ""
+	if idx%5 == 2 {
+		faillist = Pick(r, pipeTypes)
+	}
+
+	c := Case{Header: fmt.Sprintf(pipeHeader, cached, mixed, idx, faillist)}
 	t := 0
 	tick := func() int { t++; return t }
 	nProbes := 1 + r.Intn(4)
@@ -766,8 +786,27 @@ func (p *pipeProbe) line() string {
 type pipeStateProxy struct {
 	state.CoreState
 
-	mu   sync.Mutex
-	gate chan struct{}
+	mu       sync.Mutex
+	gate     chan struct{}
+	failList string // the first List of this type fails, once `armed` (the runtime has been started)
+	armed    bool
+}
+
+var errPipeList = fmt.Errorf("transient list failure")
+
+func (p *pipeStateProxy) List(ctx context.Context, kind resource.Kind, opts ...state.ListOption) (resource.List, error) {
+	p.mu.Lock()
+	fail := p.failList != "" && kind.Type() == p.failList && p.armed
+	if fail {
+		p.failList = ""
+	}
+	p.mu.Unlock()
+
+	if fail {
+		return resource.List{}, errPipeList
+	}
+
+	return p.CoreState.List(ctx, kind, opts...)
 }
 
 func (p *pipeStateProxy) WatchKindAggregated(ctx context.Context, kind resource.Kind, ch chan<- []state.Event, opts ...state.WatchKindOption) error {
@@ -791,7 +830,7 @@ func (e *pipeEng) Exec(t *testing.T, c Case) []string {
 		defer cancel()
 
 		inner := namespaced.NewState(func(ns resource.Namespace) state.CoreState { return inmem.NewState(ns) })
-		proxy := &pipeStateProxy{CoreState: inner}
+		proxy := &pipeStateProxy{CoreState: inner, failList: h["faillist"]}
 		st := state.WrapCore(proxy)
 
 		var opts []options.Option
@@ -905,6 +944,10 @@ func (e *pipeEng) Exec(t *testing.T, c Case) []string {
 					return "ok"
 				case "start":
 					started = true
+
+					proxy.mu.Lock()
+					proxy.armed = true
+					proxy.mu.Unlock()
 
 					go func() { runDone <- rt.Run(ctx) }()
 
